@@ -43,11 +43,22 @@ def case(draw, tier):
     comb = draw(st.sampled_from(["sum", "sum", "max", "xor"]))
     two_node = draw(st.integers(0, 3)) == 0
     zero = draw(st.sampled_from([None, None, 1000, 7, 0]))
-    kind = draw(st.sampled_from(["TSD", "TSD", "TSD", "TSL"]))
+    kind = draw(st.sampled_from(["TSD", "TSD", "TSD", "TSL", "DTSL"]))
     if kind == "TSD":
         opts = {"cancel": True, "multi": True, "no_rewrite": True, "grow": draw(st.integers(0, 2)) == 0, "keys": draw(st.sampled_from([2, 4, 9, 17]))}
         script = draw(tm.history(("TSD", "int", ("TS", "int")), start, horizon, opts, max_cycles=16 if big else 9))
         n = 0
+    elif kind == "DTSL":
+        # dynamic (grow-only) list: writing at an index beyond the current length grows it; holes stay invalid
+        n = 0
+        script, top = [], 0
+        for t in draw(gen.time_set(start, start + horizon - 1, 1, 12 if big else 7)):
+            ops = []
+            for _ in range(draw(st.integers(1, 3))):
+                i = draw(st.integers(0, min(top + 2, 20 if big else 10)))
+                top = max(top, i)
+                ops.append({"k": "i", "i": i, "op": {"k": "set", "v": draw(st.integers(-3, 30))}})
+            script.append([t, ops])
     else:
         n = draw(st.integers(1, 6 if big else 4))
         script = draw(tm.history(("TSL", ("TS", "int"), n), start, horizon, {"multi": True}, max_cycles=12 if big else 7))
@@ -69,6 +80,7 @@ def check(case, ctx) -> Result:
         C = {"params": ["TS[int]", "TS[int]"], "names": ["lhs", "rhs"], "out": "TS[int]", "ret": "c",
              "stmts": [{"id": "c", "op": "node", "ins": [{"arg": 0}, {"arg": 1}], "out": "TS[int]", "fn": comb, "log_inputs": False}]}
     schema = ("TSD", "int", ("TS", "int")) if case["kind"] == "TSD" else ("TSL", ("TS", "int"), case["n"])
+    dyn = {}   # dynamic list model: index -> value
     args = [{"fn": "C"}, {"ts": "d"}] + ([{"sc": case["zero"], "t": "int"}] if case["zero"] is not None else [])
     prog = {"start": case["start"], "end": case["end"], "subs": {"C": C}, "stmts": [
         {"id": "d", "op": "src", "schema": tm.schema_str(schema), "script": case["script"]},
@@ -94,12 +106,21 @@ def check(case, ctx) -> Result:
     crossed = emptied = False
     first_write = None
     for t, ops in case["script"]:
-        m.begin_cycle()
-        for op in ops:
-            m.apply(op, t)
-        if first_write is None and m.modified():
+        if case["kind"] == "DTSL":
+            for op in ops:
+                dyn[op["i"]] = op["op"]["v"]
+            vals = [v for _, v in sorted(dyn.items())]
+            modified_now = True
+        else:
+            m.begin_cycle()
+            for op in ops:
+                m.apply(op, t)
+            modified_now = m.modified()
+        if first_write is None and modified_now:
             first_write = t
-        if case["kind"] == "TSD":
+        if case["kind"] == "DTSL":
+            pass
+        elif case["kind"] == "TSD":
             vals = [c.value for k, c in sorted(m.value.items()) if c.valid]
         else:
             vals = [c.value for c in m.value if c.valid]
@@ -122,7 +143,7 @@ def check(case, ctx) -> Result:
         got = seen.get(t)
         if got is None:
             # the recorder is bound to the collection too: it must have been evaluated in every scripted cycle with an effective write
-            if m.modified():
+            if modified_now:
                 res.violations.append(Viol("no_evaluation_on_collection_tick", f"t={t}: the collection ticked but the consumer bound to it and to the result was not evaluated", feats))
                 break
             continue
